@@ -23,6 +23,19 @@ B_IDEAL = Fr(OPSIN['bias'])
 U32 = Fr(1, 2 ** 24)
 ULP_CBRT = Fr(1, 2 ** 23)        # A-cbrt: |cbrtf(x) - cbrt(x)| <= 1 ulp <= 2^-23 * cbrt(x)
 
+_CBRT_OK = {}
+def require_cbrt(build):
+    """A-cbrt is not assumed: the 1-ulp accuracy of cbrtf is re-established from the MIR body of the build under
+    analysis (engine/approx.py, the argument of C18); if that fails every obligation resting on it is undecided"""
+    if build not in _CBRT_OK:
+        from engine import realerr
+        H = realerr.Helpers(Ctx(build, 'yuvxyb_math'))
+        _CBRT_OK[build] = (H.cbrt_rel is not None and H.cbrt_rel <= 2.0 ** -23, H.fail.get('cbrtf') or 'cbrtf accuracy not certified')
+    ok, why = _CBRT_OK[build]
+    if not ok:
+        raise Unsupported(f"the cube root helper is not certified to 1 ulp in build {build}: {why}")
+
+
 def cbrt_hi(x):      # upper bound of the real cube root of a non-negative rational
     return Fr(float(x) ** (1.0 / 3.0)) * (1 + Fr(1, 10 ** 9)) + Fr(1, 10 ** 30)
 def cbrt_lo(x):
@@ -121,6 +134,7 @@ def const_dev(F, k):
     return F.out[k].p.constant()
 
 def check_c04(ck, ctx, b, tier):
+    require_cbrt(b)
     base = f"C04/{b}"
     F = Forward(ctx)
     ck.count('kernels')
@@ -188,6 +202,7 @@ def check_c04(ck, ctx, b, tier):
               f"clamped mixes give cbrtf(0.0) = {float(gz):.3g} (ideal 0) before the bias term")
 
 def check_c16_xyb(ck, ctx, b):
+    require_cbrt(b)
     base = f"C16/xyb/{b}"
     F = Forward(ctx)
     ck.count('xyb_kernels')
@@ -267,6 +282,7 @@ def roundtrip_kernel(ctx):
     return it, val, dims_ok
 
 def check_c05(ck, ctx, b, tier):
+    require_cbrt(b)
     base = f"C05/{b}"
     it, val, dims_ok = roundtrip_kernel(ctx)
     ck.count('kernels')
